@@ -19,6 +19,19 @@ SemIntBinary(op, A, B) ==
 IntUnary(op, v) == CASE op = "Relu" -> (IF v > 0 THEN v ELSE 0) [] op = "Abs" -> (IF v < 0 THEN -v ELSE v)
 SemIntUnary(op, A) == MustValue(<<T(A.dt, A.shape, [k \in 1..Len(A.data) |-> IntUnary(op, A.data[k])])>>)
 
+\* comparisons of integer-valued tensors and logic on boolean tensors (results are boolean tensors)
+IntCmpOps == {"Equal", "Less", "LessOrEqual", "Greater", "GreaterOrEqual"}
+IntCmp(op, a, b) == CASE op = "Equal" -> a = b [] op = "Less" -> a < b [] op = "LessOrEqual" -> a <= b [] op = "Greater" -> a > b [] op = "GreaterOrEqual" -> a >= b
+BoolLogicOps == {"And", "Or", "Xor"}
+BoolLogic(op, a, b) == CASE op = "And" -> a /\ b [] op = "Or" -> a \/ b [] op = "Xor" -> a # b
+SemBoolResult(A, B, F(_, _)) ==
+   IF A.dt # B.dt THEN NoCrash
+   ELSE IF ~BCompat(A.shape, B.shape) THEN MustError
+   ELSE MustValue(<<Mk("bool", BShape(A.shape, B.shape), LAMBDA idx : F(At(A, BIndex(idx, A.shape)), At(B, BIndex(idx, B.shape))))>>)
+SemIntCompare(op, A, B) == SemBoolResult(A, B, LAMBDA a, b : IntCmp(op, a, b))
+SemBoolLogic(op, A, B) == IF A.dt # "bool" THEN NoCrash ELSE SemBoolResult(A, B, LAMBDA a, b : BoolLogic(op, a, b))
+SemNot(A) == IF A.dt # "bool" THEN NoCrash ELSE MustValue(<<T("bool", A.shape, [k \in 1..Len(A.data) |-> ~A.data[k]])>>)
+
 SupportedOps ==
    {"Abs", "Acos", "Acosh", "Add", "And", "ArgMax", "Asin", "Asinh", "Atan", "Atanh", "Cast", "Concat", "Constant", "ConstantOfShape",
     "Conv", "Cos", "Cosh", "Div", "Equal", "Expand", "Flatten", "GRU", "Gather", "Gemm", "Greater", "GreaterOrEqual", "LSTM", "Less",
@@ -28,7 +41,8 @@ SupportedOps ==
 
 \* operators whose semantics this module dispatches (the program generators draw from these)
 Catalogue == {"Add", "Sub", "Mul", "Relu", "Abs", "Gemm", "MatMul", "Flatten", "Transpose", "Concat", "Reshape", "Squeeze", "Unsqueeze",
-              "Shape", "Slice", "Gather", "Expand", "Constant", "Conv", "RNN", "GRU", "LSTM", "ReduceMax", "ReduceMin", "ArgMax", "Scaler", "LinearRegressor"}
+              "Shape", "Slice", "Gather", "Expand", "Constant", "Conv", "RNN", "GRU", "LSTM", "ReduceMax", "ReduceMin", "ArgMax", "Scaler", "LinearRegressor",
+              "Equal", "Less", "LessOrEqual", "Greater", "GreaterOrEqual", "And", "Or", "Xor", "Not"}
 
 In_(inputs, i) == IF i <= Len(inputs) THEN inputs[i] ELSE Nil
 SliceIntsOf(inputs) ==
@@ -41,6 +55,9 @@ SliceIntsOf(inputs) ==
 NodeSem(op, attrs, inputs, nout) ==
    CASE op \in IntBinOps   -> SemIntBinary(op, inputs[1], inputs[2])
      [] op \in {"Relu", "Abs"} -> SemIntUnary(op, inputs[1])
+     [] op \in IntCmpOps   -> SemIntCompare(op, inputs[1], inputs[2])
+     [] op \in BoolLogicOps -> SemBoolLogic(op, inputs[1], inputs[2])
+     [] op = "Not"       -> SemNot(inputs[1])
      [] op = "Gemm"      -> SemGemm(inputs[1], inputs[2], In_(inputs, 3), attrs)
      [] op = "MatMul"    -> SemMatMul(inputs[1], inputs[2])
      [] op = "Flatten"   -> SemFlatten(inputs[1], AttrV(attrs, "axis", 1))
